@@ -92,6 +92,7 @@ type gField struct {
 	multi   bool // the field may occur twice in a document
 	always  bool // field present in every document (no presence bit)
 	allTerm bool // every term present (no has bit)
+	fixFreq bool // frequency is the constant 1 (no symbolic number)
 }
 
 type gCfg struct {
@@ -102,6 +103,8 @@ type gCfg struct {
 	freqZero bool // allow freq == 0
 	maxAP    int  // array positions per location / stored value
 	idBase   string
+	symTyp   bool // stored type byte symbolic (else 't')
+	noFx     bool // freq of hits with locations is exactly the number of locations
 }
 
 type gen struct {
@@ -186,7 +189,12 @@ func vGenBatch(cfg gCfg) ([]index.Document, *sSpec) {
 					var freq uint64
 					if nl > 0 {
 						// the reader sizes its location buffers by freq: keep it small (layout), >= number of locations
-						freq = uint64(nl) + uint64(vChoice(cfg.prefix+"fx"+tt, 2))
+						freq = uint64(nl)
+						if !cfg.noFx {
+							freq += uint64(vChoice(cfg.prefix+"fx"+tt, 2))
+						}
+					} else if gf.fixFreq {
+						freq = 1
 					} else {
 						freq = g.num("freq"+tt, 1<<63)
 						if !cfg.freqZero {
@@ -208,6 +216,10 @@ func vGenBatch(cfg gCfg) ([]index.Document, *sSpec) {
 					accs[ti].has = true
 					accs[ti].freq += freq
 				}
+				if len(terms) > 0 {
+					// a field that has tokens has a positive analysed length (validity predicate)
+					vAssume(length >= 1)
+				}
 				opts := index.IndexField
 				if gf.tv {
 					opts |= index.IncludeTermVectors
@@ -226,7 +238,9 @@ func vGenBatch(cfg gCfg) ([]index.Document, *sSpec) {
 					for i := range val {
 						val[i] = byte(0x40 + 16*d + 4*fi + o + i)
 					}
-					typ = vU8(fmt.Sprint(cfg.prefix, "typ", tag))
+					if cfg.symTyp {
+						typ = vU8(fmt.Sprint(cfg.prefix, "typ", tag))
+					}
 					nap := 0
 					if cfg.maxAP > 0 {
 						nap = vChoice(fmt.Sprint(cfg.prefix, "snap", tag), cfg.maxAP+1)
@@ -390,15 +404,42 @@ func sCheckDocNumbers(seg segment.Segment, sp *sSpec, tag string) {
 
 // sCheckDocValues visits the doc values of every document in the given order with one state.
 func sCheckDocValues(seg segment.Segment, sp *sSpec, order []int, tag string) {
+	sCheckDocValuesX(seg, sp, order, tag, true)
+}
+
+// sCheckDocValuesX: with exactFields false (merged segments) the visitable list only has to lie between
+// the fields that have a doc-value term in some document and the fields indexed with doc values.
+func sCheckDocValuesX(seg segment.Segment, sp *sSpec, order []int, tag string, exactFields bool) {
 	dvs, ok := seg.(segment.DocValueVisitable)
 	vAssert(ok, tag+"dv-visitable")
 	fl, err := dvs.VisitableDocValueFields()
 	vAssert(err == nil, tag+"dv-fields-err")
 	got := append([]string(nil), fl...)
 	sort.Strings(got)
-	vAssert(len(got) == len(sp.dvFields), tag+"dv-fields-len")
-	for i := range got {
-		vAssert(got[i] == sp.dvFields[i], tag+"dv-fields")
+	if exactFields {
+		vAssert(len(got) == len(sp.dvFields), tag+"dv-fields-len")
+		for i := range got {
+			vAssert(got[i] == sp.dvFields[i], tag+"dv-fields")
+		}
+	} else {
+		in := func(l []string, x string) bool {
+			for _, e := range l {
+				if e == x {
+					return true
+				}
+			}
+			return false
+		}
+		for _, f := range got {
+			vAssert(in(sp.dvFields, f), tag+"dv-fields-upper")
+		}
+		for _, ds := range sp.docs {
+			for _, e := range ds.dv {
+				if len(e.terms) > 0 {
+					vAssert(in(got, e.field), tag+"dv-fields-lower")
+				}
+			}
+		}
 	}
 	// ask for every configured field, also those without doc values
 	var ask []string
